@@ -39,7 +39,7 @@ def contains(t, names):
 
 
 def run(ctx):
-    nprog = ctx.scale(420, 9000)
+    nprog = ctx.scale(360, 9000)
     ev, nontrivial, dist, failures, tie_breaks, samples = S.run_differential(
         ctx, FEATS, nprog, check_fn="check_c12", imports=S.IMPORTS + "\nFrom V Require Import C12.Model.", log=True,
         ok_codes=(0,), soft_codes={5: "prefix_only_ambiguous_arith_error", 6: "equal_up_to_cleanup_position"},
